@@ -11,6 +11,7 @@ CONSTANTS
   KillCarriesState = TRUE
   Once = TRUE
   Local = {"A"}
+  SweepKillsDraining = {TRUE}
   MonPairs = {}
   Undecodable = {}
 INVARIANTS
